@@ -301,7 +301,7 @@ var opsByMode = map[string][]string{
 	"C01": {"Add", "Add", "Add", "Append", "Concat", "Rename", "Rename", "RenameRegexp", "CleanNames", "TrimNames", "TrimNamesAuto",
 		"AppendSeqIdentifier", "Sort", "Sort", "ShuffleSequences", "FilterLength", "Deduplicate", "Translate", "Clone", "CloneSeqBag",
 		"Sample", "Clear", "SetSequenceChar", "ReplaceChar", "Replace", "AutoAlphabet", "RemoveGapSeqs", "RemoveGapSites", "Unalign",
-		"IgnoreIdentical", "SubAlign", "Identical", "TrimSequences", "Compress", "SetAlphabet", "RemoveMajorityCharacterSites", "RemoveCharacterSites",
+		"IgnoreIdentical", "SubAlign", "Identical", "Describe", "Describe", "TrimSequences", "Compress", "SetAlphabet", "RemoveMajorityCharacterSites", "RemoveCharacterSites",
 		"RemoveCharacterSeqs"},
 	"C04": {"SubAlign", "SubAlign", "Extract", "Extract", "SelectSites", "SelectSites", "InverseCoordinates", "InversePositions", "TrimSequences",
 		"RefCoordinates", "RefCoordinates", "RefSites", "Concat", "Append", "Split", "Split", "Transpose", "DiffWithFirst", "ReplaceMatchChars", "Rename"},
@@ -438,6 +438,8 @@ func (g *heapGen) args(h *heapRun, op string, recv int, o *obj) *Step {
 			return nil
 		}
 		a["other"] = f64(x)
+	case "Describe":
+		a["what"] = []string{"length", "nseq", "taxa"}[g.rng.Intn(3)]
 	case "Identical":
 		a["other"] = f64(1 + g.rng.Intn(len(h.objs)))
 	case "Rename":
